@@ -138,6 +138,7 @@ class Session:
                 if kind == 'param':
                     me.ext = None
                     me.start_event(kind, self._toc_cache)     # (log: at Log.refresh_toc, see below)
+                    me.fetcher[kind] = self
                 tocm.TocFetcher.start(self)
 
         class _ExtendedTypeFetcher(paramm._ExtendedTypeFetcher):
@@ -180,8 +181,8 @@ class Session:
         orig_refresh = cf.log.refresh_toc
 
         def log_refresh(refresh_done_callback, toc_cache):
-            self.fetcher['log'] = None
             self.start_event('log', toc_cache)
+            self.fetcher['log'] = None
             return orig_refresh(refresh_done_callback, toc_cache)
         cf.log.refresh_toc = log_refresh
 
@@ -199,6 +200,10 @@ class Session:
         cf._param_toc_updated_cb = param_done
 
     def start_event(self, kind, toc_cache):
+        if getattr(self, '_fresh', False):
+            self._fresh = False
+            self.done = {'log': False, 'param': False}
+            self.fetcher = {}
         pat = '%08X.json' % self.crc[kind]
         try:
             present = any(n.endswith(pat) for n in toc_cache._cache_files)
@@ -256,8 +261,9 @@ class Session:
         self.connected_evt.set()
 
     def open(self, attempt):
-        self.done = {'log': False, 'param': False}
-        self.fetcher = {}
+        # the per-connection containers are replaced when the new connection's first download
+        # starts: a packet of the old link still being handled belongs to the old ones
+        self._fresh = True
         self.connected_evt.clear()
         self.cf.open_link('tocsim://0/%d' % attempt)
 
